@@ -27,7 +27,7 @@ use serde_json::{Value, json};
 pub fn spec() -> CheckSpec {
     CheckSpec {
         id: "C16",
-        level: "pbt+fuzz",
+        level: "exploration",
         rule: "byte level: a case is one byte string given to target_frame or target_message; non-trivial = the bytes decode successfully for >=1 protocol type (message) / yield >=1 decoded or decompressed frame (frame); distinct = hash of the bytes. reconstruction: a case is one (block, compact block, pool content, uncle states, peer replies) scenario run through CompactBlockVerifier -> reconstruct_block -> BlockTransactionsVerifier/BlockUnclesVerifier -> reconstruct_block; non-trivial = >=1 same-hash-different-witness twin among the candidates or >=1 missing position; distinct = hash of the scenario",
         assumptions: &[
             "handler pre-checks are mirrored, not re-verified: SendBlock/CompactBlock with more than one extra field, messages failing check_data(), alerts failing the utf-8 checks are dropped before the deeper accessors exactly as the handlers do; JSON conversions run only on values that satisfy the check_data() rules (their documented 'checked data' precondition)",
